@@ -317,15 +317,11 @@ def main():
         [x], [ref_node.outputs[0]], nodes=[early_dead, ref_node, late_dead],
         opset_imports={"": 20, "d": 1}, name="ref",
     )
-    try:
-        unused_removal.RemoveUnusedNodesPass()(ir.Model(g, ir_version=10))
-    except TypeError as e:
-        check("is not a graph" in str(e), f"unexpected message: {e}")
-    else:
-        check(False, "a reference GRAPH attribute must be rejected with TypeError")
+    # (Before the repair 37c3965 of the library this call ended in TypeError; a reference attribute is now skipped.)
+    unused_removal.RemoveUnusedNodesPass()(ir.Model(g, ir_version=10))
     check(
-        [n.name for n in g] == ["early_dead", "ref_node"],
-        "state after the rejected call: only the node visited before the failure is removed",
+        [n.name for n in g] == ["ref_node"],
+        "a node holding a reference GRAPH attribute stays, both dead nodes around it are removed",
     )
 
     print("OK")
